@@ -947,11 +947,11 @@ pub fn str_to_int(s: &SmtString) -> i32 {
     let mut x: i32 = 0;
     for &d in &s.s {
         if char_is_digit(d) {
-            let y = 10 * x + (d as i32 - '0' as i32);
-            if y < x {
+            let digit = d as i32 - '0' as i32;
+            if x > (i32::MAX - digit) / 10 {
                 panic!("Arithmetic overflow in str_to_int");
             }
-            x = y;
+            x = 10 * x + digit;
         } else {
             return -1;
         }
